@@ -31,7 +31,8 @@ META = {
 def shape(ev, clause):
     if ev['ev'] != 'run':
         fm = ev.get('fmap', [])
-        return 'split|%s' % ('colliding_tag_values' if len(set(fm)) < len(fm) else 'distinct_tag_values')
+        return 'split|%s|%s' % ('colliding_tag_values' if len(set(fm)) < len(fm) else 'distinct_tag_values',
+                                'tool_does_not_end' if ev.get('raised') == 'Hang' else 'passes=%s' % min(ev.get('passes', 0), 3))
     if clause == 'Inv_C19_Content' and ev.get('stale'):
         for f in ev['final']:
             if f['p'] in ev['stale'] and 0 in f['recs'] and len(f['recs']) > 1:
@@ -99,6 +100,7 @@ def run(tier):
     c.mc_negative('HandleLimiter', 'MC_HandleLimiter_impl_partial_q.cfg', expect_inv='Inv_C19_Raise', workers=4)
     c.mc_negative('HandleLimiter', 'MC_HandleLimiter_mut_seen_early_q.cfg', expect_inv='Inv_C19_Content', workers=4)
     c.mc_negative('SplitPasses', 'MC_SplitPasses_rawkey_q.cfg', expect_inv='Inv_C19_PassesComplete', workers=4)
+    c.mc_negative('SplitPasses', 'MC_SplitPasses_skipreplace_q.cfg', expect_inv=['Inv_C19_PassBound', 'Inv_C19_OpenOnce'], workers=4)
     c.mc_negative('SplitPasses', 'MC_SplitPasses_noskip_q.cfg', expect_inv='Inv_C19_OpenOnce', workers=4)
 
     scns = gen_scenarios(tier, c)
